@@ -170,15 +170,14 @@ impl Serialize for PacketHeader {
             Self::Old { header, length } => match length {
                 PacketLength::Fixed(len) => {
                     writer.write_u8(header.into_bits())?;
-                    if *len < 256 {
+                    // as many length octets as the length type in the header octet announces
+                    match header.length_type() {
                         // one octet
-                        writer.write_u8(*len as u8)?;
-                    } else if *len < 65536 {
+                        0 => writer.write_u8(u8::try_from(*len)?)?,
                         // two octets
-                        writer.write_u16::<BigEndian>(*len as u16)?;
-                    } else {
+                        1 => writer.write_u16::<BigEndian>(u16::try_from(*len)?)?,
                         // four octets
-                        writer.write_u32::<BigEndian>(*len)?;
+                        _ => writer.write_u32::<BigEndian>(*len)?,
                     }
                 }
                 PacketLength::Indeterminate => {
@@ -214,20 +213,14 @@ impl Serialize for PacketHeader {
                 }
                 PacketLength::Partial(_len) => 1 + 1,
             },
-            Self::Old { header: _, length } => match length {
-                PacketLength::Fixed(len) => {
-                    let mut sum = 1; // header
-                    if *len < 256 {
-                        // one octet
-                        sum += 1;
-                    } else if *len < 65536 {
-                        // two octets
-                        sum += 2;
-                    } else {
-                        // four octets
-                        sum += 4;
+            Self::Old { header, length } => match length {
+                PacketLength::Fixed(_) => {
+                    // header + as many length octets as its length type announces
+                    match header.length_type() {
+                        0 => 1 + 1,
+                        1 => 1 + 2,
+                        _ => 1 + 4,
                     }
-                    sum
                 }
                 PacketLength::Indeterminate => 1,
                 PacketLength::Partial(_) => {
